@@ -332,7 +332,11 @@ public:
             if (now_s() - t0 > 120) { o = failf("C20: drain exceeded 120 s"); break; }
             if (!progress) usleep(500);
         }
-        if (o.ok) VF_CHECK(r.alive(), "C20: the relay process exited (status 0x%x) while serving connections", r.exit_status);
+        if (!r.alive()) {
+            // whatever else went wrong: a relay that died is the finding
+            std::string tail;
+            return failf("C20: the relay process exited (status 0x%x) while serving connections%s%s", r.exit_status, o.ok ? "" : "; first symptom: ", o.ok ? "" : o.msg.c_str());
+        }
         if (!r.alive()) r.ok = false;
         c.nt(both_dirs && (paused_burst || close_in_flight));
         return o;
@@ -342,6 +346,7 @@ public:
     {
         static const int B[] = {1, 2, 100, 4096, 16384, 16385, 65535, 65534, 30000};
         if (bs) return y % 3 ? 1 + x % 3000 : 1 + x % 200000;
+        if (y % 4 == 1) return 1 + x % 200; // small messages queue up behind large ones in a back-pressured relay
         return y % 3 == 0 ? (uint32_t)B[x % 9] : 1 + x % 65535;
     }
 
